@@ -59,3 +59,11 @@ Theorem electron_shells_start_bounds :
   forall n m, (n < 0 -> electron_shells_start n m = inl ERuntime)%Z /\ (n > 118 -> electron_shells_start n m = inl ENotImpl)%Z.
 Proof. exact ess_bounds. Qed.
 Print Assumptions electron_shells_start_bounds.
+
+(* every display name of the shipped index survives the file-name round trip (finite, over Gen/GenIndex.v) *)
+From BSE Require Import Gen.GenIndex Proofs.IndexFinite.
+Theorem name_filename_roundtrip_shipped :
+  forall kv, In kv shipped_index ->
+    basis_name_from_filename (transform_basis_name (i_display (snd kv))) = lower (i_display (snd kv)).
+Proof. exact shipped_names_roundtrip. Qed.
+Print Assumptions name_filename_roundtrip_shipped.
